@@ -28,6 +28,12 @@ class C03(Prop):
     trusted_base = ['harness/hist_common.hpp canonical dump and agreement lines (public getters only)']
 
     def generate(self, seed, tier, scale=1):
+        cases = self._generate(seed, tier, scale)
+        if scale == 1:
+            self._routes = histlib.count_routes(self.corpus() + cases)
+        return cases
+
+    def _generate(self, seed, tier, scale=1):
         rnd = random.Random(seed * 104729 + 3)
         n = (70 if tier == 'quick' else 1500) * scale
         cases = histlib.gen_uuid_cases(rnd, 20 if tier == 'quick' else 400)
@@ -35,6 +41,9 @@ class C03(Prop):
         # uuid-shaped and id-valued names (seeded change C03-B)
         for _ in range(1 if tier == 'quick' else 10 * scale):
             cases += histlib.gen_c03_link_cases(rnd)
+        # enumerations with a non-default filter on every container against the lookups under the same predicate
+        for _ in range(16 if tier == 'quick' else 300 * scale):
+            cases.append(histlib.gen_c03_filter_case(rnd))
         for i in range(n):
             fl = ['chk-touched', 'chk-touched', 'chk-every-step', 'no-final-reopen'][i % 4]
             cases.append(histlib.gen_c03_case(rnd, rnd.randint(15, 45), fl))
@@ -43,11 +52,18 @@ class C03(Prop):
     def corpus(self):
         return histlib.load_corpus(self.id)
 
+    def extra_checks(self, ctx):
+        # which further public entry points (notes/route-audit.md) this run went through, and how many script lines each got
+        routes = getattr(self, '_routes', {})
+        ctx['ev']['entry_points'] = {k: v for k, v in histlib.ROUTES.items() if any(r == k or r.startswith(k + ' ') for r in routes)}
+        ctx['ev']['lines_per_route'] = routes
+        return []
+
     def compare(self, a, b):
         return histlib.compare(a, b)
 
     def nontrivial(self, case, model_lines):
-        return any(('cnt=' in l and 'cnt=0' not in l) or l in ('OK 0', 'OK 1') for l in model_lines)
+        return any(('cnt=' in l and 'cnt=0' not in l) or l in ('OK 0', 'OK 1') or ('flt=[' in l and 'flt=[]' not in l) for l in model_lines)
 
     def signature(self, case, impl_lines, spec_lines):
         i = histlib.first_failure(case, impl_lines, spec_lines)
